@@ -25,6 +25,9 @@ RULE = (
 ASSUMPTIONS = [
     "a relative simple source with rho > 0 on mixed-sign data has no simple absolute equivalent; its matrix equivalent is used",
     "wrappers are called with save=False, report=False; relative matrix sources are not passed with errors_rel_to_model=True (documented as not implemented)",
+    "wrapper keyword combinations: the explicit fit applies starting values, step sizes, limits, fixed parameters, constraints in the order of the wrapper documentation; "
+    "a parameter fixed outside its own limits is compared between the two specifications only (no documented winner); with profile=True the returned fit object may have "
+    "been moved by MINOS after the result values were read",
 ]
 N = 6
 
@@ -503,7 +506,7 @@ def fam_wrapper_combos(v):
 
     wrappers = {
         "xy_fit": lambda **kw: kafe2.xy_fit(lm, x, y, y_error=val.ey, y_error_cor=val.ys, **kw),
-        "indexed_fit": lambda **kw: kafe2.indexed_fit(im, y, error=val.ey, error_rel=val.ry, **kw),
+        "indexed_fit": lambda **kw: kafe2.indexed_fit(im, y, error=val.ey, error_cor_rel=0.03, errors_rel_to_model=False, **kw),
         "hist_fit": lambda **kw: kafe2.hist_fit(ref.normal_density, HIST_ENTRIES, n_bins=5, bin_range=(0.0, 6.0), **kw),
         "unbinned_fit": lambda **kw: kafe2.unbinned_fit(ref.normal_density, HIST_ENTRIES, **kw),
         "custom_fit": lambda **kw: kafe2.custom_fit(custom_cost, **kw),
@@ -517,7 +520,7 @@ def fam_wrapper_combos(v):
         elif ftype == "indexed_fit":
             f = kafe2.IndexedFit(y, im)
             f.add_error(val.ey)
-            f.add_error(val.ry, relative=True, reference="model")
+            f.add_error(0.03, correlation=1.0, relative=True, reference="data")
         elif ftype == "hist_fit":
             f = kafe2.HistFit(kafe2.HistContainer(5, (0.0, 6.0), None, HIST_ENTRIES), ref.normal_density, cost_function="poisson")
         elif ftype == "unbinned_fit":
@@ -592,7 +595,7 @@ def fam_wrapper_combos(v):
         items = alpha[ftype][2]
         n0, n1 = alpha[ftype][0]
         combos = [()] + [(i,) for i in CONTROL_ITEMS]
-        combos += [(i, j) for a_, i in enumerate(CONTROL_ITEMS) for j in CONTROL_ITEMS[a_ + 1 :] if (i, j) != ("fixv", "fixn")]
+        combos += [(i, j) for a_, i in enumerate(CONTROL_ITEMS) for j in CONTROL_ITEMS[a_ + 1 :] if (i, j) != ("fixv", "fixn") and (j != "profile" or i in ("limact", "fixv"))]
         combos += [("p0", "dp0", "limin", "fixv", "con"), ("p0", "dp0", "limin", "limact", "con", "profile"), ("p0", "limact", "fixn", "con", "profile")]
         for combo in combos:
             A, B = mk(ftype, [items[i] for i in combo])
@@ -926,14 +929,14 @@ def jobs(tier, seed):
     specs = []
     for vv in ([v] if tier == "quick" else [0, 1, 2]):
         for fam in FAMILIES:
-            nsh = {"sources": 3, "wrappers": 4, "wrapper-combos": 12}.get(fam, 2)
+            nsh = {"sources": 3, "wrappers": 4, "wrapper-combos": 14}.get(fam, 2)
             for sh in range(nsh):
                 specs.append((fam, vv, sh, nsh))
     return specs
 
 
 def bound(tier, seed):
-    return "all pairs of the five families (source forms on xy/indexed fits with positive and mixed-sign data and on the x axis; simple / matrix constraint forms with values of either sign; xy_fit / indexed_fit / hist_fit / unbinned_fit keywords vs explicit construction incl. errors_rel_to_model both ways, limits, fixed, constraints, p0; library names and SymPy strings vs callables; YAML shorthand vs explicit YAML vs API); valuation(s) %s" % (
+    return "all pairs of the six families (source forms on xy/indexed fits with positive and mixed-sign data and on the x axis; simple / matrix constraint forms with values of either sign; xy_fit / indexed_fit / hist_fit / unbinned_fit keywords vs explicit construction incl. errors_rel_to_model both ways, limits, fixed, constraints, p0; COMBINATIONS of the control keywords of xy_fit / indexed_fit / hist_fit / unbinned_fit / custom_fit: none, each and every pair of {p0, dp0, limits containing p0, limits excluding p0 and active at the minimum, fixed with a value different from the p0 entry, fixed without a value, constraints (absolute + relative), profile} plus three larger combinations, the container forms of limits / fixed / constraints (bare entry, list, tuple of lists, one-sided limits), and every pair of uncertainty keywords of xy_fit (8), indexed_fit (4), hist_fit (4), each against the explicitly built fit (values, step sizes, limits, fix, constrain, fit) and against what the keyword asks for (fixed value, limits respected); library names and SymPy strings vs callables; YAML shorthand vs explicit YAML vs API); valuation(s) %s" % (
         (seed % 3) if tier == "quick" else "0,1,2"
     )
 
